@@ -297,12 +297,49 @@ def live_tensors():
     return sum(1 for o in gc.get_objects() if isinstance(o, Tensor))
 
 
+def footprint(t):
+    """bytes reachable from a tensor's attributes (strings, tuples, arrays, other tensors ...; classes, modules and functions excluded)"""
+    import types
+    seen, todo, total = set(), [t.__dict__], 0
+    while todo:
+        o = todo.pop()
+        if id(o) in seen or isinstance(o, (type, types.ModuleType, types.FunctionType, types.BuiltinFunctionType, types.MethodType)):
+            continue
+        seen.add(id(o))
+        total += sys.getsizeof(o)
+        todo.extend(gc.get_referents(o))
+        if len(seen) > 200000:
+            break
+    return total
+
+
 def untracked_loop(mode, length):
     import numpy as np
     import synapgrad as sg
+    from synapgrad.tensor import Tensor
+    named = mode.endswith("_named")
+    if named:
+        mode = mode[:-len("_named")]
     gc.collect()
     base = live_tensors()
     track = mode.startswith("no_grad")
+    if named:       # operands that carry a name (as layer parameters do)
+        w = Tensor(np.array([1.0, 2.0, 3.0], dtype=np.float32), requires_grad=track, name="weight")
+        g = Tensor(np.array([0.5, -0.5, 0.25], dtype=np.float32), requires_grad=track, name="rate")
+        with (sg.no_grad() if track else nullcontext()):
+            fp = []
+            w0 = w.data.copy()
+            for t in range(length):
+                w = w - 0.1 * g           # the running value enters each update once (anything kept per step grows linearly, not exponentially)
+                if t in (20, length - 1):
+                    fp.append(footprint(w))
+        gc.collect()
+        res = {"mode": mode + "_named", "loop": length, "operands_alive": 0, "live_tensors_added": live_tensors() - base, "result_requires_grad": bool(w.requires_grad),
+               "result_has_grad_fn": w._grad_fn is not None, "value_ok": bool(np.allclose(w.data, w0 - 0.1 * length * g.data, rtol=1e-2)),
+               "footprint_after_20_steps": fp[0], "footprint_at_end": fp[-1]}
+        del w, g
+        gc.collect()
+        return res
     w = sg.tensor([1.0, 2.0, 3.0], requires_grad=track)
     g = sg.tensor([0.5, -0.5, 0.25], requires_grad=track)
     w0, refs = w.data.copy(), []
